@@ -104,8 +104,8 @@ Qed.
 Lemma semaphore_agent_upd kind passed t g l u :
   ag_iface_upd (Semaphore.ag g u) (Semaphore.ag (fst (Semaphore.sem_tstep kind passed t g l)) u).
 Proof.
-  unfold Semaphore.sem_tstep, Semaphore.notify, Semaphore.after_resume, Semaphore.finish_sig, Semaphore.fail_op,
-    Semaphore.wait_or_take, Semaphore.arrive, Semaphore.enqueue, Semaphore.log_ev, Semaphore.take.
+  unfold Semaphore.sem_tstep, Semaphore.sl_notify, Semaphore.notify, Semaphore.after_resume, Semaphore.finish_sig,
+    Semaphore.fail_op, Semaphore.wait_or_take, Semaphore.arrive, Semaphore.enqueue, Semaphore.log_ev, Semaphore.take.
   crush_upd u.
 Qed.
 
@@ -124,10 +124,10 @@ Lemma join_ipoint_ag p t g g' : Join.ipoint_step p t g = Some g' -> Join.ag g' =
 Proof.
   unfold Join.ipoint_step. destruct (Join.en g t && Join.req g t); intros H; inversion H. reflexivity.
 Qed.
-Lemma join_agent_upd lp tgt x t g l u :
-  ag_iface_upd (Join.ag g u) (Join.ag (fst (Join.tstep lp tgt x t g l)) u).
+Lemma join_agent_upd lp pf tgt x t g l u :
+  ag_iface_upd (Join.ag g u) (Join.ag (fst (Join.tstep lp pf tgt x t g l)) u).
 Proof.
-  unfold Join.tstep, Join.ended, Join.set1.
+  unfold Join.tstep, Join.thrown, Join.unwind, Join.ended, Join.set1.
   repeat match goal with
          | |- context [match ?x with _ => _ end] => destruct x eqn:?
          end;
@@ -197,7 +197,7 @@ Theorem primitive_models_use_the_interface :
      ag_iface_upd (Event.eag (Event.est g) u) (Event.eag (Event.est (fst (Event.e_tstep o t g l))) u)) /\
   (forall o t g l u,
      ag_iface_upd (Event.eag (Once.oev g) u) (Event.eag (Once.oev (fst (Once.o_tstep o t g l))) u)) /\
-  (forall lp tgt x t g l u, ag_iface_upd (Join.ag g u) (Join.ag (fst (Join.tstep lp tgt x t g l)) u)).
+  (forall lp pf tgt x t g l u, ag_iface_upd (Join.ag g u) (Join.ag (fst (Join.tstep lp pf tgt x t g l)) u)).
 Proof.
   split; [exact mutex_agent_upd|]. split; [exact condvar_agent_upd|]. split; [exact semaphore_agent_upd|].
   split; [exact latch_agent_upd|]. split; [exact event_agent_upd|]. split; [exact once_agent_upd | exact join_agent_upd].
